@@ -52,7 +52,7 @@ func firstOccNames(t *ast.SExpr) *ast.SExpr {
 func runC08(cfg *Config) *Report {
 	rep := newReport()
 	rep.Rule = "answer states with binding chains, shared and repeated unbound variables, unbound query, nesting depth<=4 (generated acyclic substitutions and states reached by running goal programs); Run(n) of generated goal programs; non-trivial = the resolved query contains >=2 occurrences of unbound variables or a chain of >=2 bindings; distinct by printed input"
-	cf := newCaseFile("From Coq Require Import List NArith ZArith.\nFrom GMK Require Import Term Unify Goal Stream Reify CorrBase Corr01 Corr02 Corr08.", "case08", "check08")
+	cf := newCaseFile("From Coq Require Import List NArith ZArith.\nFrom GMK Require Import Term Unify Goal Stream Reify Reflect GCore CorrBase Corr01 Corr02 Corr08.", "case08", "check08")
 	cf.b.WriteString(coqRelLib())
 	r := newRand(cfg.Seed)
 	pg := &progGen{r: r, allowNon: true, rels: []int{1, 2, 3, 4, 5, 7, 8, 10}}
@@ -74,6 +74,7 @@ func runC08(cfg *Config) *Report {
 		}
 		rep.Evaluations++
 		desc, obs := "", ""
+		gcoq := ""
 		switch {
 		case kind < 5:
 			st := &micro.State{Substitutions: s, Counter: uint64(nv)}
@@ -108,11 +109,13 @@ func runC08(cfg *Config) *Report {
 				rep.nontrivial(desc)
 			}
 		case kind == 12:
-			desc, obs = gmcase.desc, runGMap(gmcase, rep, i)
+			desc = gmcase.desc
+			obs, gcoq = runGMap(gmcase, rep, i)
 			rep.hist("gomini-run (leaves in struct fields, slices, maps, nested records)")
 			rep.nontrivial(desc)
 		case kind >= 10:
-			desc, obs = gcase.desc, runGRun(gcase, rep, i)
+			desc = gcase.desc
+			obs, gcoq = runGRun(gcase, rep, i)
 			rep.hist("gomini-run")
 			rep.nontrivial(desc)
 		default:
@@ -149,7 +152,7 @@ func runC08(cfg *Config) *Report {
 			}
 		}
 		if kind >= 10 {
-			cf.add("CReifyS TNil []") // the gomini part has direct oracles only; keep indices aligned
+			cf.add(gcoq) // the same run for the transcribed gomini algorithm (coq/GCore.v: gunify over the equations, then grewrite)
 		}
 		rep.CaseDesc = append(rep.CaseDesc, desc)
 		rep.CaseObs = append(rep.CaseObs, obs)
